@@ -200,6 +200,9 @@ func formatFile(file *ast.File) {
 		case *ast.FuncDecl:
 			// delay the process, because package level vars need to be processed first.
 			funcs = append(funcs, v)
+			if v.Recv == nil {
+				ctx.insert(v.Name.Name)
+			}
 		case *ast.GenDecl:
 			switch v.Tok {
 			case token.IMPORT:
@@ -252,6 +255,7 @@ func formatGenDecl(ctx *formatCtx, v *ast.GenDecl) {
 		for _, item := range v.Specs {
 			spec := item.(*ast.TypeSpec)
 			formatType(ctx, spec.Type, &spec.Type)
+			ctx.insert(spec.Name.Name)
 		}
 	}
 }
